@@ -10,25 +10,26 @@ set_option linter.unusedVariables false
 namespace Muscle.Reflector
 open Muscle
 
-/-- every node's index lists existing children of that node, each at most once -/
-def TreeInv (sv : Server) : Prop := AllNodes IdxInv sv.root
+/-- at every node: the index lists existing children of that node, each at most once, and sibling names are
+    pairwise different -/
+def TreeInv (sv : Server) : Prop := AllNodes NodeInv sv.root
 
 theorem treeInv_of_root {sv sv' : Server} (h : sv'.root = sv.root) (hi : TreeInv sv) : TreeInv sv' := by
   unfold TreeInv at *; rw [h]; exact hi
 
 theorem treeInv_getNode {sv : Server} {path : List Bytes} {t : Node} (hi : TreeInv sv)
-    (h : Reflector.getNode sv path = some t) : AllNodes IdxInv t :=
+    (h : Reflector.getNode sv path = some t) : AllNodes NodeInv t :=
   AllNodes.nodeAt hi h
 
-theorem allNodes_same_kids {t t' : Node} (h : AllNodes IdxInv t) (hk : t'.kids = t.kids) (hi : IdxInv t') :
-    AllNodes IdxInv t' :=
-  AllNodes.mk _ hi (by rw [hk]; exact h.kid)
+theorem allNodes_same_kids {t t' : Node} (h : AllNodes NodeInv t) (hk : t'.kids = t.kids) (hi : IdxInv t') :
+    AllNodes NodeInv t' :=
+  AllNodes.mk _ ⟨hi, by unfold KidsDistinct; rw [hk]; exact h.here.2⟩ (by rw [hk]; exact h.kid)
 
 theorem treeInv_setNode {f : Node → Node} (hf : ∀ n, (f n).name = n.name) {sv : Server} {path : List Bytes}
     (hi : TreeInv sv)
-    (ht : ∀ t, Reflector.getNode sv path = some t → AllNodes IdxInv t → AllNodes IdxInv (f t)) :
+    (ht : ∀ t, Reflector.getNode sv path = some t → AllNodes NodeInv t → AllNodes NodeInv (f t)) :
     TreeInv (setNode sv path f) :=
-  AllNodes.updateAt hf (fun n c h => IdxInv.putKid c h) fuelDepth sv.root path hi ht
+  AllNodes.updateAt hf (fun n c h => NodeInv.putKid c h) fuelDepth sv.root path hi ht
 
 /-! ## primitives -/
 
@@ -37,7 +38,7 @@ theorem treeInv_setField {sv : Server} {path : List Bytes} (f : Node → Node) (
     TreeInv (setNode sv path f) := by
   apply treeInv_setNode hf hi
   intro t _ ht
-  exact allNodes_same_kids ht (hk t) ⟨by rw [hx]; exact ht.here.1, by intro c hc; rw [hx] at hc; rw [hk]; exact ht.here.2 c hc⟩
+  exact allNodes_same_kids ht (hk t) ⟨by rw [hx]; exact ht.here.1.1, by intro c hc; rw [hx] at hc; rw [hk]; exact ht.here.1.2 c hc⟩
 
 theorem treeInv_removeIndexEntry {sv : Server} (parent : List Bytes) (key : Bytes) (notify : Bool)
     (hi : TreeInv sv) : TreeInv (removeIndexEntry sv parent key notify) := by
@@ -50,23 +51,23 @@ theorem treeInv_removeIndexEntry {sv : Server} (parent : List Bytes) (key : Byte
       have : TreeInv (Reflector.setNode sv parent (fun q => q.setIndex (q.index.eraseIdx i))) := by
         apply treeInv_setNode (setIndex_name_pres _) hi
         intro t _ ht
-        refine allNodes_same_kids ht (by simp) ⟨by simpa using nodup_eraseIdx i ht.here.1, ?_⟩
+        refine allNodes_same_kids ht (by simp) ⟨by simpa using nodup_eraseIdx i ht.here.1.1, ?_⟩
         intro c hc
         simp only [Node.setIndex_index] at hc
-        simpa using ht.here.2 c (mem_of_mem_eraseIdx hc)
+        simpa using ht.here.1.2 c (mem_of_mem_eraseIdx hc)
       cases notify with
       | true => rw [removeIndexEntry_emits h hl]; exact treeInv_of_root (by simp) this
       | false => rw [removeIndexEntry_quiet h hl]; exact this
 
-theorem allNodes_setSubs {c : Node} (s : List (Nat × Nat)) (h : AllNodes IdxInv c) : AllNodes IdxInv (c.setSubs s) :=
-  allNodes_same_kids h (by simp) ⟨by simpa using h.here.1, by simpa using h.here.2⟩
+theorem allNodes_setSubs {c : Node} (s : List (Nat × Nat)) (h : AllNodes NodeInv c) : AllNodes NodeInv (c.setSubs s) :=
+  allNodes_same_kids h (by simp) ⟨by simpa using h.here.1.1, by simpa using h.here.1.2⟩
 
 theorem treeInv_putChild {sv : Server} (by_ : Nat) (parent : List Bytes) (child : Node) (notify : Bool)
-    (hi : TreeInv sv) (hc : AllNodes IdxInv child) : TreeInv (putChild sv by_ parent child notify) := by
+    (hi : TreeInv sv) (hc : AllNodes NodeInv child) : TreeInv (putChild sv by_ parent child notify) := by
   apply treeInv_of_root (putChild_root sv by_ parent child notify)
   apply treeInv_setNode (setKids_name_pres _) hi
   intro t _ ht
-  refine AllNodes.mk _ (IdxInv.putKid _ ht.here) ?_
+  refine AllNodes.mk _ (NodeInv.putKid _ ht.here) ?_
   intro k hk
   simp only [Node.setKids_kids] at hk
   rcases mem_putKid hk with hk | hk
@@ -76,30 +77,34 @@ theorem treeInv_putChild {sv : Server} (by_ : Nat) (parent : List Bytes) (child 
 theorem treeInv_insertOrderedChild {sv : Server} (by_ : Nat) (parent : List Bytes) (d : Option Nat)
     (before name : Bytes) (nc : Bool) (hi : TreeInv sv)
     (hok : ∀ p, Reflector.getNode sv parent = some p →
-      findKid (ordPair p name).1 p.kids = none ∨ (ordPair p name).1 ∉ p.index) :
+      before = removeFromIndexName ∨ findKid (ordPair p name).1 p.kids = none ∨ (ordPair p name).1 ∉ p.index) :
     TreeInv (insertOrderedChild sv by_ parent d before name nc) := by
   cases h : Reflector.getNode sv parent with
   | none => simp [Reflector.insertOrderedChild, h]; exact hi
   | some p =>
-    rw [insertOrderedChild_emits by_ d before name nc h]
-    apply treeInv_of_root (notifyIndex_root _ _ _ _)
-    unfold insertOrderedPre
     have hA : TreeInv (Reflector.setNode sv parent (fun q => q.setCtr (ordPair p name).2)) :=
       treeInv_setField _ (setCtr_name_pres _) (by simp) (by simp) hi
-    have hgA : Reflector.getNode (Reflector.setNode sv parent (fun q => q.setCtr (ordPair p name).2)) parent =
-        some (p.setCtr (ordPair p name).2) := by
-      rw [getNode_setNode (setCtr_name_pres _), h]; rfl
-    have hB := treeInv_putChild by_ parent (Node.fresh (ordPair p name).1 d) nc hA (AllNodes.fresh _ _)
-    have hgB := getNode_putChild by_ (Node.fresh (ordPair p name).1 d) nc hgA
-    apply treeInv_setNode (setIndex_name_pres _) hB
-    intro t htg ht
-    rw [hgB] at htg
-    cases htg
-    have hp : IdxInv p := (treeInv_getNode hi h).here
-    refine allNodes_same_kids ht (by simp) ?_
-    apply idxInv_insert hp (hok p h) (i := insertPos p.index before) (nm := (ordPair p name).1)
-    · simp [insertAt]
-    · exact ⟨storedChild (Reflector.setNode sv parent (fun q => q.setCtr (ordPair p name).2)) parent (Node.fresh (ordPair p name).1 d), by simp, by simp⟩
+    have hB : TreeInv (insertOrderedPut sv by_ parent d (ordPair p name).1 (ordPair p name).2 nc) :=
+      treeInv_putChild by_ parent (Node.fresh (ordPair p name).1 d) nc hA (AllNodes.fresh _ _)
+    by_cases hb : before = removeFromIndexName
+    · rw [insertOrderedChild_unindexed by_ d name nc h hb]; exact hB
+    · rw [insertOrderedChild_emits by_ d name nc h hb]
+      apply treeInv_of_root (notifyIndex_root _ _ _ _)
+      unfold insertOrderedPre
+      apply treeInv_setNode (setIndex_name_pres _) hB
+      intro t htg ht
+      rw [getNode_insertOrderedPut by_ d _ _ nc h] at htg
+      cases htg
+      have hp : IdxInv p := (treeInv_getNode hi h).here.1
+      refine allNodes_same_kids ht (by simp) ?_
+      have hok' : findKid (ordPair p name).1 p.kids = none ∨ (ordPair p name).1 ∉ p.index := by
+        rcases hok p h with h1 | h1
+        · exact absurd h1 hb
+        · exact h1
+      obtain ⟨c, hc1, _, _, hc2⟩ := insertOrderedPutNode_kids sv parent p d (ordPair p name).1 (ordPair p name).2
+      apply idxInv_insert hp hok' (i := insertPos p.index before) (nm := (ordPair p name).1)
+      · simp [insertAt]
+      · exact ⟨c, hc1, by simpa using hc2⟩
 
 theorem treeInv_reorderChild {sv : Server} (parent : List Bytes) (child before : Bytes) (hi : TreeInv sv)
     (hok : ∀ p, Reflector.getNode sv parent = some p →
@@ -120,7 +125,7 @@ theorem treeInv_reorderChild {sv : Server} (parent : List Bytes) (child before :
           intro t htg ht
           rw [getNode_removeIndexEntry child true h] at htg
           cases htg
-          have hp : IdxInv p := (treeInv_getNode hi h).here
+          have hp : IdxInv p := (treeInv_getNode hi h).here.1
           refine allNodes_same_kids ht (by simp) ?_
           have := idxInv_reorder (child := child) (before := before) hp (hok p h)
           unfold reorderIndex at this
@@ -149,10 +154,11 @@ theorem treeInv_removeOne {sv : Server} (by_ : Nat) (notify : Bool) (names : Lis
         have := getNode_congr (removeOneMid_root (Reflector.removeIndexEntry sv parent key notify) by_ notify parent key) parent
         rw [this, hg1] at htg
         cases htg
-        have hpi : IdxInv p := (treeInv_getNode hi hp).here
+        have hpi : IdxInv p := (treeInv_getNode hi hp).here.1
         refine AllNodes.mk _ ?_ ?_
         · have := idxInv_removeKid key hpi
-          simpa using this
+          have hkd := KidsDistinct.removeKid key ht.here.2
+          exact ⟨by simpa using this, by simpa using hkd⟩
         · intro k hk
           simp only [Node.setKids_kids, Node.setIndex_kids] at hk
           exact ht.kid k (by simpa using mem_removeKid hk)
